@@ -2,3 +2,5 @@ import DC.Prelude.Hex
 import DC.Gen.Tokens
 import DC.Gen.Unicode
 import DC.Driver
+import DC.Props.C14
+import DC.Props.C15
